@@ -152,41 +152,67 @@ func genWirings(ctx *core.Ctx, cfg string, n int) ([]*Wiring, error) {
 	if !res.OK() {
 		return nil, core.Infra("Gen_Walk %s does not hold: %q\n%s", cfg, res.Invariant, tailStr(res.Output, 1500))
 	}
-	var out []*Wiring
-	for _, line := range caseLine.FindAllString(res.Output, -1) {
-		txt, err := strconv.Unquote(strings.TrimSpace(line))
-		if err != nil {
-			return nil, core.Infra("Gen_Walk: cannot unquote %q: %v", line, err)
-		}
-		v, err := core.ParseTLA(txt)
-		if err != nil {
-			return nil, core.Infra("Gen_Walk: cannot parse %q: %v", txt, err)
-		}
-		t, ok := v.([]any)
-		if !ok || len(t) != 11 {
-			return nil, core.Infra("Gen_Walk: unexpected case %q", txt)
-		}
-		w := &Wiring{}
-		w.Walker, _ = t[1].(string)
-		w.N, _ = t[2].(int)
-		var ok1, ok2, ok3, ok4 bool
-		w.Kind, ok1 = toStrs(t[3])
-		w.A, ok2 = toInts(t[4])
-		w.B, ok3 = toInts(t[5])
-		w.Start, _ = t[6].(int)
-		w.Phase, _ = t[7].(string)
-		w.Out, ok4 = toStrs(t[8])
-		w.Work, _ = t[9].(int)
-		w.Bound, _ = t[10].(int)
-		if !(ok1 && ok2 && ok3 && ok4) || w.Walker == "" || w.N != n || len(w.Kind) != n {
-			return nil, core.Infra("Gen_Walk: malformed case %q", txt)
-		}
-		out = append(out, w)
+	lines := caseLine.FindAllString(res.Output, -1)
+	out := make([]*Wiring, len(lines))
+	var perr error
+	var pmu sync.Mutex
+	var pwg sync.WaitGroup
+	const nparse = 8
+	for p := 0; p < nparse; p++ {
+		pwg.Add(1)
+		go func(p int) {
+			defer pwg.Done()
+			for i := p; i < len(lines); i += nparse {
+				w, err := parseCase(lines[i], n)
+				if err != nil {
+					pmu.Lock()
+					perr = err
+					pmu.Unlock()
+					return
+				}
+				out[i] = w
+			}
+		}(p)
+	}
+	pwg.Wait()
+	if perr != nil {
+		return nil, perr
 	}
 	if len(out) == 0 {
 		return nil, core.Infra("Gen_Walk %s produced no cases", cfg)
 	}
 	return out, nil
+}
+
+func parseCase(line string, n int) (*Wiring, error) {
+	txt, err := strconv.Unquote(strings.TrimSpace(line))
+	if err != nil {
+		return nil, core.Infra("Gen_Walk: cannot unquote %q: %v", line, err)
+	}
+	v, err := core.ParseTLA(txt)
+	if err != nil {
+		return nil, core.Infra("Gen_Walk: cannot parse %q: %v", txt, err)
+	}
+	t, ok := v.([]any)
+	if !ok || len(t) != 11 {
+		return nil, core.Infra("Gen_Walk: unexpected case %q", txt)
+	}
+	w := &Wiring{}
+	w.Walker, _ = t[1].(string)
+	w.N, _ = t[2].(int)
+	var ok1, ok2, ok3, ok4 bool
+	w.Kind, ok1 = toStrs(t[3])
+	w.A, ok2 = toInts(t[4])
+	w.B, ok3 = toInts(t[5])
+	w.Start, _ = t[6].(int)
+	w.Phase, _ = t[7].(string)
+	w.Out, ok4 = toStrs(t[8])
+	w.Work, _ = t[9].(int)
+	w.Bound, _ = t[10].(int)
+	if !(ok1 && ok2 && ok3 && ok4) || w.Walker == "" || w.N != n || len(w.Kind) != n {
+		return nil, core.Infra("Gen_Walk: malformed case %q", txt)
+	}
+	return w, nil
 }
 
 func genPipeRows(ctx *core.Ctx) ([]PipeCase, error) {
@@ -264,7 +290,10 @@ func run(ctx *core.Ctx) error {
 			return first
 		}
 	}
-	sort.Slice(wirings, func(i, j int) bool { return wirings[i].key() < wirings[j].key() })
+	for _, w := range wirings {
+		w.key()
+	}
+	sort.Slice(wirings, func(i, j int) bool { return wirings[i].k < wirings[j].k })
 	// thorough: the N=3 object-layer wirings are sharded by seed (1/8 per run), everything else is complete
 	shard := int(ctx.Seed % 8)
 	nW := 0
